@@ -2074,7 +2074,12 @@ impl Machine {
         };
 
         match compile_assert() {
-            Ok(_) => Ok(()),
+            Ok(mut payload) => {
+                // the load state created for this call is not referenced from the heap:
+                // release it instead of leaving an inactive payload in the arena.
+                payload.drop_payload();
+                Ok(())
+            }
             Err(SessionError::CompilationError(
                 CompilationError::InvalidRuleHead | CompilationError::InadmissibleFact,
             )) => {
@@ -2189,7 +2194,12 @@ impl Machine {
         };
 
         match abolish_clause() {
-            Ok(_) => Ok(()),
+            Ok(mut payload) => {
+                // the load state created for this call is not referenced from the heap:
+                // release it instead of leaving an inactive payload in the arena.
+                payload.drop_payload();
+                Ok(())
+            }
             Err(e) => {
                 let stub = functor_stub(atom!("abolish"), 1);
                 let err = self.machine_st.session_error(e);
@@ -2261,7 +2271,12 @@ impl Machine {
         };
 
         match retract_clause() {
-            Ok(_) => Ok(()),
+            Ok(mut payload) => {
+                // the load state created for this call is not referenced from the heap:
+                // release it instead of leaving an inactive payload in the arena.
+                payload.drop_payload();
+                Ok(())
+            }
             Err(e) => {
                 let stub = functor_stub(atom!("retract"), 1);
                 let err = self.machine_st.session_error(e);
